@@ -182,12 +182,26 @@ def col_counter(eng, args, kwargs, node):
         if isinstance(src, dict):
             c.update(src)
         else:
-            for x in eng.iterate_concrete(src):
-                x = eng.hashable(x)
-                if is_sym(x):
-                    raise Unsupported('Counter over symbolic elements')
+            items = [eng.hashable(x) for x in eng.iterate_concrete(src)]
+            if any(is_sym(x) for x in items):
+                return SymCounter(items)
+            for x in items:
                 c[x] = c.get(x, 0) + 1
     return c
+
+
+class SymCounter:
+    """collections.Counter over a fixed number of symbolic elements: c[key] = number of elements equal to key"""
+
+    def __init__(self, items):
+        self.items = items
+
+    def vc_getitem(self, eng, key, node=None):
+        tot = 0
+        for x in self.items:
+            e = eng.equals(x, key)
+            tot = eng.binop(ast.Add(), tot, int(e) if isinstance(e, bool) else Sym(z3.If(e, 1, 0), INT))
+        return tot
 
 
 class NamedTupleType:
@@ -211,6 +225,9 @@ def make_namedtuple(eng, nt, args, kwargs):
 
 
 TABLE = {
+    'matplotlib.pyplot.get_cmap': lambda e, a, k, n: Obj('Colormap', {}),
+    'copy.copy': lambda e, a, k, n: a[0],
+    'numpy.mean': lambda e, a, k, n: 0,
     'traceback.format_exc': lambda e, a, k, n: 'traceback',
     'collections.namedtuple': col_namedtuple,
     'numpy.ceil': np_ceil, 'numpy.floor': np_floor, 'math.ceil': math_ceil, 'math.floor': math_floor,
